@@ -62,7 +62,7 @@ type prattModel struct {
 	lowest   int64            // what peekPrecedence returns for unknown tokens
 	prefix   map[string]*handler
 	infix    map[string]*handler
-	cmpOp    token.Token // comparison in the Pratt loop: precedence <op> peekPrecedence()
+	cmpOp    token.Token     // comparison in the Pratt loop: precedence <op> peekPrecedence()
 	precLit  map[int64]int64 // the precedences literal by token value
 	precPeek map[int64]int64 // peekPrecedence() evaluated for every peek token
 	stops    []string
@@ -408,23 +408,25 @@ func (m *Model) extractPratt() *prattModel {
 	}
 	// the dynamic call of the looked-up infix function, and the branch facts that dominate it
 	var infixCall *ssa.Call
-	for _, b := range pe.Blocks {
-		for _, in := range b.Instrs {
-			c, ok := in.(*ssa.Call)
-			if !ok || c.Call.StaticCallee() != nil || c.Call.IsInvoke() {
-				continue
-			}
-			v := c.Call.Value
-			if ex, isEx := v.(*ssa.Extract); isEx {
-				v = ex.Tuple
-			}
-			if lk, isLk := v.(*ssa.Lookup); isLk {
-				if _, p, ok := pathOf(lk.X); ok && p == ".infixParseFns" {
+	for _, hf := range m.helpersOf(pe) {
+		for _, b := range hf.Blocks {
+			for _, in := range b.Instrs {
+				c, ok := in.(*ssa.Call)
+				if !ok || c.Call.StaticCallee() != nil || c.Call.IsInvoke() {
+					continue
+				}
+				v := c.Call.Value
+				if ex, isEx := v.(*ssa.Extract); isEx {
+					v = ex.Tuple
+				}
+				if lk, isLk := v.(*ssa.Lookup); isLk {
+					if _, p, ok := pathOf(lk.X); ok && p == ".infixParseFns" {
+						infixCall = c
+					}
+				}
+				if c == semInfixCall {
 					infixCall = c
 				}
-			}
-			if c == semInfixCall {
-				infixCall = c
 			}
 		}
 	}
@@ -455,16 +457,100 @@ func (m *Model) extractPratt() *prattModel {
 		}
 		negate := map[token.Token]token.Token{token.LSS: token.GEQ, token.GEQ: token.LSS, token.LEQ: token.GTR, token.GTR: token.LEQ, token.EQL: token.NEQ, token.NEQ: token.EQL}
 		flip := map[token.Token]token.Token{token.LSS: token.GTR, token.GTR: token.LSS, token.LEQ: token.GEQ, token.GEQ: token.LEQ, token.EQL: token.EQL, token.NEQ: token.NEQ}
+		// the binding power handed to parseExpression, as the function that holds the call sees it
+		isPrecParam := func(v ssa.Value) bool {
+			if len(pe.Params) != 2 {
+				return false
+			}
+			if v == ssa.Value(pe.Params[1]) {
+				return true
+			}
+			par, isPar := v.(*ssa.Parameter)
+			if !isPar || par.Parent() == pe {
+				return false
+			}
+			rs := m.resolveUp(par, pe, 0)
+			for _, r := range rs {
+				if r != ssa.Value(pe.Params[1]) {
+					return false
+				}
+			}
+			return len(rs) > 0
+		}
 		for _, f := range expandFacts(factsAt(infixCall.Block())) {
+			// the loop condition as a helper: evaluated with the binding power as a named unknown P and a peek token of
+			// known precedence q, it must come out as a comparison of P with q
+			if fc, isCall := f.Cond.(*ssa.Call); isCall && fc.Call.StaticCallee() != nil && m.InModule(fc.Call.StaticCallee()) && fc.Call.StaticCallee().Blocks != nil {
+				callee := fc.Call.StaticCallee()
+				args := make([]any, len(fc.Call.Args))
+				pIdx := -1
+				for i, a := range fc.Call.Args {
+					args[i] = iObj{"parser"}
+					if isPrecParam(a) {
+						pIdx = i
+						args[i] = iSym{name: "P"}
+					}
+				}
+				if pIdx < 0 || len(args) != len(callee.Params) {
+					continue
+				}
+				var tvs []int64
+				for tv := range pm.precPeek {
+					tvs = append(tvs, tv)
+				}
+				sort.Slice(tvs, func(i, j int) bool { return tvs[i] < tvs[j] })
+				var got token.Token
+				consistent, seen := true, 0
+				for _, tv := range tvs {
+					q := pm.precPeek[tv]
+					ip := m.parserInterp(-1, tv, pm.precLit, nil)
+					res, ok := ip.Run(callee, args)
+					sym, isSym := res.(iSym)
+					if !ok || !isSym {
+						continue // a stop token, or LOWEST: the condition is decided without looking at P
+					}
+					op := token.ILLEGAL
+					xs, xIsSym := sym.x.(iSym)
+					ys, yIsSym := sym.y.(iSym)
+					xc, xIsC := sym.x.(constant.Value)
+					yc, yIsC := sym.y.(constant.Value)
+					switch {
+					case xIsSym && xs.name == "P" && yIsC:
+						if v, _ := constant.Int64Val(yc); v == q {
+							op = sym.op
+						}
+					case yIsSym && ys.name == "P" && xIsC:
+						if v, _ := constant.Int64Val(xc); v == q {
+							op = flip[sym.op]
+						}
+					}
+					if op == token.ILLEGAL {
+						consistent = false
+						break
+					}
+					if seen > 0 && op != got {
+						consistent = false
+						break
+					}
+					got, seen = op, seen+1
+				}
+				if consistent && seen > 0 {
+					if !f.Holds {
+						got = negate[got]
+					}
+					pm.cmpOp = got
+				}
+				continue
+			}
 			bo, ok := f.Cond.(*ssa.BinOp)
 			if !ok || len(pe.Params) != 2 {
 				continue
 			}
 			op := token.ILLEGAL
 			switch {
-			case bo.X == ssa.Value(pe.Params[1]) && isPeekPrec(bo.Y):
+			case isPrecParam(bo.X) && isPeekPrec(bo.Y):
 				op = bo.Op
-			case bo.Y == ssa.Value(pe.Params[1]) && isPeekPrec(bo.X):
+			case isPrecParam(bo.Y) && isPeekPrec(bo.X):
 				op = flip[bo.Op]
 			default:
 				continue
